@@ -1,4 +1,5 @@
 import Zlink.Proofs.RxOracle
+import Zlink.Proofs.RxWake
 /-! # C07 — Receiving is cancel-safe
 
 Model: poll-level `Rx` (`Zlink/Model/Rx.lean`). An event list is an interleaving of byte arrivals,
@@ -55,6 +56,26 @@ theorem C07_state_only_in_connection (C : Consts) (sizes : Nat → Nat) (evs₁ 
     | none => simp only []; rw [ih]
     | some o => simp only [List.cons_append]; rw [ih]
 
+/-- **A parked receive needs no polling.** A poll that ended pending has taken everything the transport held; polling
+    the receive again before anything arrives is pending again and changes neither buffer, cursors nor transport. So an
+    executor that polls a receive only when its waker has fired (every real one) produces, between two arrivals, the
+    same state as one that polls it any number of times: the extra polls of the event lists above are no-ops, and
+    abandoning a receive that is parked is abandoning it at a fixpoint. -/
+theorem C07_parked_poll_is_noop (C : Consts) (sizes : Nat → Nat) (s : St) (e : Net)
+    (h : (poll C sizes s e).1 = .pending) (n : Nat) :
+    run C sizes (List.replicate n .poll) (poll C sizes s e).2.1 (poll C sizes s e).2.2 = List.replicate n .pending ∧
+    (List.replicate n Ev.poll).foldl (fun p ev => ((step C sizes p.1 p.2 ev).2.1, (step C sizes p.1 p.2 ev).2.2))
+      ((poll C sizes s e).2.1, (poll C sizes s e).2.2) = ((poll C sizes s e).2.1, (poll C sizes s e).2.2) := by
+  have hfix := poll_pending_fix C sizes s e h
+  induction n with
+  | zero => exact ⟨rfl, rfl⟩
+  | succ n ih =>
+    constructor
+    · simp only [List.replicate_succ, run, step, hfix]
+      rw [ih.1]
+    · simp only [List.replicate_succ, List.foldl_cons, step, hfix]
+      exact ih.2
+
 /-! ## Non-vacuity -/
 namespace Example
 def frames : List (List Byte) := [[123, 125], [91, 49, 93]]
@@ -65,5 +86,7 @@ example : EvsOK evs (enc frames) :=
   ⟨[125, 0, 91, 49, 93, 0], by decide, ⟨[93, 0], by decide, ⟨[], by decide, rfl, trivial⟩⟩⟩
 example : run C (fun _ => 100) evs (init C) net0 =
     [.pending, .pending, .frame [123, 125], .frame [91, 49, 93], .err .eof] := by decide
+/-- the premise of `C07_parked_poll_is_noop` is met after the first arrival: `{` alone is no frame, the poll is pending -/
+example : (poll C (fun _ => 100) (init C) { net0 with avail := [123] }).1 = .pending := by decide
 end Example
 end C07
